@@ -21,3 +21,20 @@ Print Assumptions C14_injective.
 
 Example C14_nonvacuous : encode K_ref (mkP 23) 4 = Ok 18 /\ decode (mkP 23) 18 = Ok 4 /\ encode K_ref (mkP 23) 10 = Err.
 Proof. vm_compute. auto. Qed.
+
+(* ristretto: whatever element Ctx::encode returns for a 30-byte plaintext (i) is a valid point of the curve and (ii) is
+   mapped back to that plaintext by Ctx::decode — so the embedding is invertible wherever it succeeds, and distinct
+   plaintexts never share an element. Proofs/RistrettoCanon.v (from ENCODE(DECODE bs) = bs). That encode SUCCEEDS for
+   every 30-byte string (some candidate among 64 x 128 decodes) is not provable and is only tested. *)
+From Strand Require Import Base.ZUtil Base.ZpField Base.Edwards Model.Codec Model.Ristretto Model.RBackend
+  Proofs.CodecP Proofs.RistrettoGroup Proofs.RistrettoCanon.
+Theorem C14_ristretto_decode_inverts_encode : forall (K : Kernel) data P, bytes_ok data -> length data = 30%nat ->
+  r_encode K data = Ok P -> r_decode K P = data /\ valid P.
+Proof. exact r_encode_decode. Qed.
+Print Assumptions C14_ristretto_decode_inverts_encode.
+
+Theorem C14_ristretto_encode_injective : forall (K : Kernel) d1 d2 P,
+  bytes_ok d1 -> bytes_ok d2 -> length d1 = 30%nat -> length d2 = 30%nat ->
+  r_encode K d1 = Ok P -> r_encode K d2 = Ok P -> d1 = d2.
+Proof. exact r_encode_injective. Qed.
+Print Assumptions C14_ristretto_encode_injective.
